@@ -1,6 +1,6 @@
 //! C14 — a scope is never left while one of its coroutines is running: the scoped join. Child module of `scoped.rs`.
 //! `JoinHandle::join` is replaced by its contract (C01: returns only when the coroutine has finished).
-//@ file-needs: cz
+//@ file-needs: cz jn
 //@ file-inject: src/scoped.rs
 //@ file-property: C14
 use super::*;
@@ -288,4 +288,109 @@ fn c14_2a_drop_all_runs_each_dtor_once() {
     scope.drop_all();
     drop(scope);
     assert!(unsafe { RAN } == 3, "[C14.2-once] no deferred destructor runs twice (Drop for Scope repeats drop_all)");
+}
+
+static mut RAN_AT_RETURN_OF_F: usize = 0;
+fn dtor_plain(tag: u8) {
+    unsafe {
+        if RAN < 3 {
+            ORDER[RAN] = tag;
+        }
+        RAN += 1;
+    }
+}
+
+//@ obligation: C14.4a
+//@ property: C14
+//@ kind: K2
+//@ complete: no
+//@ bound: two deferred destructors
+//@ functions: scope, Scope::defer, Scope::drop_all
+//@ statement: coroutine::scope runs the user closure, then every destructor the closure deferred (the scoped joins) — all of them have run when scope
+//@ statement: returns, none ran before the closure returned — and passes the closure's value through
+#[kani::proof]
+#[kani::stub(crate::scheduler::get_scheduler, sup::get_scheduler_stub)]
+#[kani::stub(<crate::park::Park as std::ops::Drop>::drop, sup::park_drop_noop)]
+#[kani::unwind(5)]
+fn c14_4a_scope_runs_the_deferred_joins_before_returning() {
+    unsafe {
+        RAN = 0;
+        ORDER = [0; 3];
+        RAN_AT_RETURN_OF_F = usize::MAX;
+    }
+    let v: u32 = kani::any();
+    let r = scope(|s| {
+        s.defer(|| dtor_plain(1));
+        s.defer(|| dtor_plain(2));
+        unsafe { RAN_AT_RETURN_OF_F = RAN };
+        v
+    });
+    assert!(unsafe { RAN_AT_RETURN_OF_F } == 0, "[C14.4-joins-after-body] a deferred join ran while the scope body was still running");
+    assert!(unsafe { RAN } == 2, "[C14.4-joined-at-return] scope returned although a deferred join (a scoped coroutine) has not been run");
+    assert!(r == v, "[C14.4-value] scope passes the closure's value through");
+}
+
+static mut SPAWNS: usize = 0;
+static mut SPAWNED_JOIN: *const crate::join::Join = std::ptr::null();
+/// contract of `spawn_unsafe_builder` (C01): a coroutine is created and scheduled, the JoinHandle refers to it. The body
+/// `f` is not run here (it runs on a worker; whether it runs is C01's business, the scope only owns the handle).
+unsafe fn spawn_contract<'a, F>(f: F, _b: Builder) -> JoinHandle<()>
+where
+    F: FnOnce() + Send + 'a,
+{
+    std::mem::forget(f);
+    SPAWNS += 1;
+    let (co, handle, join) = sup::mk_suspended_coroutine();
+    std::mem::forget(co);
+    SPAWNED_JOIN = std::sync::Arc::as_ptr(&join);
+    let packet = std::sync::Arc::new(AtomicOption::none());
+    let panic = std::sync::Arc::new(AtomicOption::none());
+    make_join_handle(handle, join, packet, panic)
+}
+
+static mut JOINED: *const crate::join::Join = std::ptr::null();
+fn join_records<T>(h: crate::join::JoinHandle<T>) -> std::thread::Result<T> {
+    unsafe {
+        JOINS += 1;
+        JOINED = h.vk_join_ptr();
+    }
+    std::mem::forget(h);
+    Ok(unsafe { std::mem::transmute_copy::<(), T>(&()) })
+}
+
+//@ obligation: C14.4b
+//@ property: C14
+//@ kind: K3
+//@ complete: yes
+//@ functions: Scope::spawn_impl, Scope::spawn, Scope::defer, Scope::drop_all, JoinState::join
+//@ statement: a scoped spawn creates exactly one coroutine and defers exactly one destructor in the scope; running the scope's destructors joins exactly
+//@ statement: that coroutine, once (spawn_unsafe_builder and JoinHandle::join replaced by their contracts); a ScopedJoinHandle that is dropped without
+//@ statement: join() does not take the deferred join away
+#[kani::proof]
+#[kani::stub(crate::scheduler::get_scheduler, sup::get_scheduler_stub)]
+#[kani::stub(<crate::park::Park as std::ops::Drop>::drop, sup::park_drop_noop)]
+#[kani::stub(crate::scoped::spawn_unsafe_builder, spawn_contract)]
+#[kani::stub(crate::join::JoinHandle::join, join_records)]
+#[kani::stub(std::thread::panicking, panicking_stub)]
+#[kani::unwind(9)]
+fn c14_4b_scoped_spawn_defers_the_join_of_its_child() {
+    unsafe {
+        SPAWNS = 0;
+        JOINS = 0;
+        IN_CO = false;
+        PANICKING_NOW = false;
+        JOINED = std::ptr::null();
+    }
+    let mut scope = Scope { dtors: RefCell::new(None) };
+    let h = unsafe { scope.spawn(|| 5u8) };
+    assert!(unsafe { SPAWNS } == 1, "[C14.4-one-coroutine] a scoped spawn creates exactly one coroutine");
+    assert!(chain_len(&scope) == 1, "[C14.4-join-deferred] a scoped spawn must defer the join of its child in the scope: without it the scope is left while the child runs");
+    assert!(unsafe { JOINS } == 0, "[C14.4-not-joined-yet] spawn does not wait for the child");
+    // the user drops the handle without joining
+    std::mem::forget(h.packet.clone());
+    drop(h);
+    assert!(chain_len(&scope) == 1 && unsafe { JOINS } == 0, "[C14.4-handle-drop-keeps-join] dropping a ScopedJoinHandle must not remove or run the deferred join");
+    scope.drop_all();
+    assert!(unsafe { JOINS } == 1 && unsafe { JOINED } == unsafe { SPAWNED_JOIN }, "[C14.4-joins-its-child] the deferred destructor joins exactly the coroutine that was spawned, once");
+    std::mem::forget(scope);
 }
